@@ -1,6 +1,6 @@
 (* Model.v — the executable entry points of the implementation model: the fixed user-function
    library (implemented a second time in Go by the runner) and one-call wrappers. *)
-From JP Require Export Json Tree Eval Peg Grammar Text Actions WF Spec AccDefs.
+From JP Require Export Json Tree Eval Peg Grammar Text Actions WF Spec AccDefs CallDefs.
 Open Scope string_scope.
 
 (* ---------- the user-function library of the harness ---------- *)
@@ -50,3 +50,6 @@ Definition eval_doc (regex_match : string -> string -> bool) (t : node) (doc : v
 (* the specification (Spec.v) with the same function library: the independent oracle of C01 *)
 Definition spec_doc (regex_match : string -> string -> bool) (t : node) (doc : value) : list res :=
   spec_results lib_ffun lib_afun regex_match t doc.
+
+Definition spec_calls (regex_match : string -> string -> bool) (t : node) (doc : value) : list call :=
+  sc lib_ffun lib_afun regex_match t doc (Some [], doc).
